@@ -24,3 +24,17 @@ PROPS["C01"] = dict(
                  "uint64 counters do not wrap (2^64 fresh variables are unreachable)"],
     explanation="soundness / most-general / failure / goal theorems over the fuelled transcription of micro's unify; tie by differential execution of unify, EqualO, walk, occurs, exts, walkStar (hook micro/export_verif.go)",
 )
+
+_PROG_TRUSTED = ["goal programs are interpreted on the Go side by the harness (build: goal AST -> real micro/mini combinators; relation calls eta-expanded as in the repository's own relations)",
+                 "the harness's depth-bounded reference search (direct oracle for soundness / answer multisets)",
+                 "correspondence evaluates the model with constant unify fuel 400 (a case where that is not enough shows EvErr and is reported); the theorems use the proved-sufficient ufuel",
+                 "a mature cell's lazily computed tail is modelled as the already computed tail (pure, finite chains)"]
+_PROG_ASSUME = ["relation bodies are guard-shaped (Zzz or conj+/disj+/conde head), every called relation is defined",
+                "start states are consistent (acyclic substitution, all variables below the counter)"]
+for _pid in ("C02", "C03", "C09"):
+    PROPS[_pid] = dict(
+        model="Stream.v",
+        harness=[dict(name="main", n_quick=1200, n_thorough=2500, shards_quick=1, shards_thorough=10, timeout=1500)],
+        trusted=_PROG_TRUSTED, assumptions=_PROG_ASSUME,
+        explanation="theorems over the deep-embedded goal language and the stream/thunk search model; tie: cell traces of generated goal programs run with the real combinators",
+    )
